@@ -345,7 +345,7 @@ func main() {
 		return
 	}
 	run := report.New("C20", "exploration")
-	run.Rule("(A) a child process running the checker over hostile location strings (path traversal, encoded separators, NUL, backslashes, 4 KiB paths, unicode, query/fragment, mixed schemes; configured files with awkward names) incl. loads, refreshes, failures, restart and cleanup is traced with strace -f -y; every successful mutating path syscall must resolve inside work_dir (or the child's report directory), decoy siblings and inputs must hash the same before and after; (B) one store directory per distinct location, and after a restart the same directories with zero origin hits; (C) histories over {load ok, load fail (garbage, HTTP 500, bad signature), refresh ok, refresh fail, restart with planted crl_*_tmp leftovers} with foreign files present: after every event no crl_*_tmp entry, no live store lost, foreign files intact; (C)(D)(E) run with work_dir spelt in five ways (plain, trailing slash, dot segment, doubled slash, symbolic link); (D) k provision/cleanup cycles: no goroutine with a repository frame, no descriptor under work_dir, work_dir can be provisioned again, counts constant. non-trivial = sub-check that observed at least one mutating syscall / store directory / event; distinct = sub-check descriptor")
+	run.Rule("(A) a child process running the checker over hostile location strings (path traversal, encoded separators, NUL, backslashes, 4 KiB paths, unicode, query/fragment, mixed schemes; configured files with awkward names) incl. loads, refreshes, failures, restart and cleanup is traced with strace -f -y; every successful mutating path syscall must resolve inside work_dir (or the child's report directory), decoy siblings and inputs must hash the same before and after; (B) one store directory per distinct location, and after a restart the same directories with zero origin hits; (C) histories over {load ok, load fail (garbage, HTTP 500, bad signature), refresh ok, refresh fail, restart with planted crl_*_tmp leftovers, retry of a location whose first load failed} with foreign files present: after every event no crl_*_tmp entry, no live store lost, foreign files intact; (C)(D)(E) run with work_dir spelt in five ways (plain, trailing slash, dot segment, doubled slash, symbolic link); (D) k provision/cleanup cycles: no goroutine with a repository frame, no descriptor under work_dir, work_dir can be provisioned again, counts constant. non-trivial = sub-check that observed at least one mutating syscall / store directory / event; distinct = sub-check descriptor")
 	run.Assume("strace sees every path syscall of the traced process tree (-f) with resolved descriptors (-y)", "after Cleanup goroutines are given up to 3 s to drain before they count as leaked")
 	scratch, _ := report.Scratch("C20")
 	bin := os.Getenv("VERIF_ENGINE_BIN_NORACE")
@@ -507,7 +507,9 @@ func main() {
 	}
 
 	// (C) lifecycle histories
-	events := []string{"load-ok", "load-garbage", "load-http500", "load-badsig", "refresh-ok", "refresh-garbage", "refresh-badsig", "restart-with-leftovers"}
+	// "retry-failed-location": a location whose first load failed earlier is healthy now and lists the
+	// certificate that asks for it
+	events := []string{"load-ok", "load-garbage", "load-http500", "load-badsig", "refresh-ok", "refresh-garbage", "refresh-badsig", "restart-with-leftovers", "retry-failed-location", "retry-failed-location"}
 	nh := 60
 	if run.Thorough() {
 		nh = 600
@@ -528,6 +530,7 @@ func main() {
 		}
 		run.Distinct("work_dir_forms", wdForm)
 		var hist []string
+		var failedPaths []string
 		loadedPaths := map[string]bool{}
 		liveDirs := map[string]bool{}
 		np := 0
@@ -589,7 +592,26 @@ func main() {
 				_, _ = chk.Ask(w.Leaf(pki.NextSerial(), []string{w.CRL.URL(p)}, nil))
 				if ev == "load-ok" {
 					loadedPaths[p] = true
+				} else {
+					failedPaths = append(failedPaths, p)
 				}
+			case ev == "retry-failed-location":
+				if len(failedPaths) == 0 {
+					continue
+				}
+				p := failedPaths[len(failedPaths)-1]
+				failedPaths = failedPaths[:len(failedPaths)-1]
+				s := gen.SerialOfWidth(rng, 9, false)
+				es := append(gen.Entries(rng, gen.Opts{N: 12, SerialWidth: 8}), crlgen.Entry{Serial: s, Date: gen.BaseTime})
+				w.CRL.Set(p, origin.Good(gen.SpecFor(w.Int, es).Build(w.Int.Key).DER))
+				rev, err := chk.Ask(w.Leaf(s, []string{w.CRL.URL(p)}, nil))
+				if !rev {
+					run.Violation("lifecycle.location-stays-unusable-after-a-failed-first-load."+backend, fmt.Sprintf("history %v: the location failed to load earlier, is healthy now and lists the certificate, but the certificate is accepted (err=%v)", hist, err), &report.Replay{Case: hist})
+					okHist = false
+					continue
+				}
+				loadedPaths[p] = true
+				run.Count("retries_of_failed_locations_loaded", 1)
 			case strings.HasPrefix(ev, "refresh-"):
 				for p := range loadedPaths {
 					switch ev {
